@@ -223,7 +223,9 @@ Qed.
 
 (* ---- calls and retransmissions ----------------------------------------------------------------------------------------- *)
 
-Definition no_ifsel (c : call) : Prop := match c with CIfSel _ _ => False | _ => True end.
+(* calls that leave every registry to its own operations: enable/disable_interface drops and creates
+   registries, a successful unregister makes them forget the service's names (fix d685fcf) *)
+Definition no_ifsel (c : call) : Prop := match c with CIfSel _ _ | CUnregister _ _ => False | _ => True end.
 
 Lemma exec_call_reach st c now js :
   no_ifsel c -> AllQ now (d_regs st) (d_regs (fst (fst (fst (exec_call st c now js))))).
@@ -231,7 +233,6 @@ Proof.
   intros Hc. destruct c; simpl; try contradiction.
   - pose proof (register_service_reach st s now js) as H.
     destruct (register_service st s now js) as [[st1 os1] js1]. simpl in *. exact H.
-  - unfold unregister. destruct (aget (lower name) (d_svcs st)); simpl; apply AllQ_refl.
   - apply AllQ_refl.
   - apply AllQ_refl.
   - apply AllQ_refl.
@@ -390,8 +391,6 @@ Proof.
   intros Hc. destruct c; simpl; try contradiction.
   - pose proof (register_service_resp st s now js) as H.
     destruct (register_service st s now js) as [[st1 os1] js1]. simpl in *. exact H.
-  - pose proof (unregister_resp st (lower name) ch now) as H.
-    destruct (unregister st (lower name) ch now) as [st1 os1]. simpl in *. exact H.
   - split; [apply all_resp_nil|auto].
   - split; [exact (proj1 (cleanup_resp st))|intros _; exact (proj2 (cleanup_resp st))].
   - split; [apply all_resp_nil|auto].
@@ -624,8 +623,7 @@ Proof.
   inversion Hc as [|x l Hx Ht]; subst.
   assert (H1 : d_intfs (fst (fst (fst (exec_call st c now js)))) = d_intfs st).
   { destruct c; simpl; try reflexivity; try contradiction.
-    - unfold register_service. destruct (register_intfs (d_intfs st) (auto_addrs st s) (d_regs st) now js) as [[[[s' regs] os] anns] js']. reflexivity.
-    - unfold unregister. destruct (aget (lower name) (d_svcs st)); reflexivity. }
+    unfold register_service. destruct (register_intfs (d_intfs st) (auto_addrs st s) (d_regs st) now js) as [[[[s' regs] os] anns] js']. reflexivity. }
   destruct (exec_call st c now js) as [[[st1 os1] js1] stop]. simpl in H1.
   destruct stop; simpl; [assumption|].
   specialize (IH st1 js1 Ht). destruct (exec_calls st1 t now js1) as [[st2 os2] js2]. simpl in *. congruence.
